@@ -74,6 +74,10 @@ def case_bundled(case):
             s, n = attempt(ureg.get_name, sp)
             if s == "err" or n != name:
                 raise Violation("bundled_spelling_not_loaded", f"{sp!r} -> {n!r}, file defines it as {name!r}")
+            # ... and is usable where unit strings are read (the expression pre-processor rewrites some characters first)
+            s, pu = attempt(ureg.parse_units, sp)
+            if s == "err" or dict(pu._units) != {name: 1}:
+                raise Violation("bundled_spelling_not_parseable", f"parse_units({sp!r}) -> {pu!r}, file defines it as {name!r}")
         if ureg.get_symbol(name) != (u.symbol or name):
             raise Violation("bundled_symbol_differs", f"{name}: {ureg.get_symbol(name)!r} vs {u.symbol or name!r}")
         if env.uc_to_dict(ureg.get_dimensionality(name)) != r.dim:
